@@ -237,6 +237,14 @@ def probe(ctx):
                 ctx.fail('rand_pauli-hermitian', f'rand_pauli(n={n}, is_hermitian={want}, seed={seed}) not honoured', dict(op='rand_pauli', n=n, want=want, seed=seed + 1000 * ctx.seed))
             else:
                 ctx.probe_ok(('rp', n, want, seed))
+    # batched conversions: values are bits, agree with the single-item path, and round-trip
+    nprng = np.random.default_rng(ctx.np_seed + 17)
+    for n in ([4, 5, 6, 9, 12] if ctx.quick() else [3, 4, 5, 6, 7, 8, 9, 12, 16, 20, 31]):
+        k = 64 if ctx.quick() else 400
+        # Y-heavy strings exercise the phase bookkeeping (x.z up to n)
+        strs = np.array([''.join(nprng.choice(list('IXYZ'), size=n, p=[0.15, 0.15, 0.55, 0.15])) for _ in range(k)])
+        idx = G.pauli_str_to_index(strs)
+        batched_roundtrip(ctx, G, n, idx, strs)
     # random larger n: product/commutation against dense matrices
     for _ in range(40 if ctx.quick() else 400):
         n = rng.randint(3, 6)
@@ -248,7 +256,47 @@ def probe(ctx):
             ctx.probe_ok(('mmr', bits(a.F2), bits(b.F2)))
 
 
+def batched_roundtrip(ctx, G, n, idx, strs):
+    idx = np.asarray(idx, dtype=np.uint64)
+    F = guarded(lambda: G.pauli_index_to_F2(idx, n, with_sign=True))
+    for j, (i1, s1) in enumerate(zip(idx.tolist(), strs.tolist())):
+        rp = dict(op='batched-index-roundtrip', n=n, index=int(i1), string=s1)
+        if isinstance(F, str):
+            ctx.fail('batched-index-to-F2', f'pauli_index_to_F2(batch) raised {F} (n={n})', rp); return
+        row = F[j]
+        single = G.pauli_index_to_F2(int(i1), n, with_sign=True)
+        if row.max() > 1:
+            ctx.fail('batched-index-to-F2', f'pauli_index_to_F2(batch) returns a non-binary entry for index {i1} (n={n}, {s1}): {row.tolist()}', rp)
+        elif not np.array_equal(row, single):
+            ctx.fail('batched-index-to-F2', f'batched and single pauli_index_to_F2 differ for index {i1} (n={n}, {s1})', rp)
+        else:
+            s2, sg = G.pauli_F2_to_str(row)
+            back = G.pauli_str_to_F2(s2, sg)
+            i2 = int(G.pauli_F2_to_index(row[np.newaxis], with_sign=True)[0])
+            if s2 != s1 or not np.array_equal(back, row) or i2 != int(i1) or sign_to_exp(sg) != 0:
+                ctx.fail('batched-roundtrip', f'index->F2->str/index round trip fails for index {i1} (n={n}, {s1})', rp)
+            else:
+                ctx.probe_ok(('brt', n, int(i1)))
+
+
 def search(ctx, hints):
+    # replay disagreeing conversion ops through the batched/single round-trip oracle
+    import numqi as _nq
+    for d in hints[:200]:
+        t = d['op'].split(' ')
+        if len(t) >= 4 and t[1] in ('ofindex', 'idx2str'):
+            n, i1 = int(t[2]), int(t[3])
+            s1 = _nq.gate.pauli_index_to_str(i1, n)
+            batched_roundtrip(ctx, _nq.gate, n, np.array([i1, i1]), np.array([s1, s1]))
+        if len(t) >= 4 and t[1] in ('tostr', 'toindex') and len(t[3]) == 2 * int(t[2]) + 2:
+            n = int(t[2]); f = f2arr(t[3])
+            s2, sg = _nq.gate.pauli_F2_to_str(np.stack([f, f]))
+            if not np.array_equal(_nq.gate.pauli_str_to_F2(s2, sg)[0], f):
+                ctx.fail('batched-str-roundtrip', f'batched F2->str->F2 changes F2={t[3]}', dict(op='batched-str-roundtrip', n=n, F2=t[3]))
+    _search_products(ctx, hints)
+
+
+def _search_products(ctx, hints):
     # the probe already evaluates the property statement directly on all n<=2 operators and pairs;
     # additionally replay the disagreeing operations through the probe-style oracles
     import numqi
